@@ -181,7 +181,7 @@ def res_kind(l):
 G_COMMON_QUICK = [['model', 2500, 25], ['entities', 6], ['entity-boundary', 1], ['fixtures', 4000], ['mut', 1500, 400], ['enum', 2, 0], ['enum', 2, 1],
                   ['enum', 2, 2], ['enum', 2, 3]]
 G_COMMON_THOROUGH = [['model', 120000, 25], ['entities', 64], ['entity-boundary', 1], ['exotic', 300], ['model', 30000, 0], ['fixtures', 20000], ['mut', 100000, 2000],
-                     ['prefixes', 600]] + [['enum', 4, k] for k in range(6)]
+                     ['prefixes', 600], ['dtdjunk', 3000]] + [['enum', 4, k] for k in range(6)]
 
 def plan(quick, thorough):
     return {'quick': quick, 'thorough': thorough}
@@ -433,7 +433,7 @@ PROPS['C12'] = P_('name lookups', 'arena,api,lk', plan(G_COMMON_QUICK[:3], G_COM
                   observable=obs_api(['LK', 'AE', 'NQ', 'AQ']), oracles=['C12.'], special='lookups')
 PROPS['C13'] = P_('source ranges', 'arena,api', plan(G_COMMON_QUICK[:3], G_COMMON_THOROUGH[:4]),
                   observable=mk_obs(lambda d: d.ranges()), oracles=['C13.'], special='shift')
-PROPS['C14'] = P_('text positions and error reports', 'arena,tp', plan(G_COMMON_QUICK, G_COMMON_THOROUGH),
+PROPS['C14'] = P_('text positions and error reports', 'arena,tp', plan(G_COMMON_QUICK + [['dtdjunk', 720]], G_COMMON_THOROUGH + [['dtdjunk', 20000]]),
                   observable=obs_errors, impl_checks=[chk_err_pos], special='errshift')
 PROPS['C15'] = P_('nodes_limit', 'arena', plan([['model', 600, 10]], [['model', 6000, 10], ['mut', 3000, 400]]),
                   observable=obs_limit, oracles=['C15.'], special='limits')
